@@ -152,6 +152,7 @@ async fn upstream_udp(k: Arc<Kernel>, plan: Arc<PlanB>, sh: Sh, ui: usize, mut r
         let reply_now = |delay_ms: u64, wrong_id: bool, garbage: bool, tc_only: bool| {
             let (k, sh, plan) = (k.clone(), sh.clone(), plan.clone());
             let (src, dst, q, id) = (u.dst, u.src, (qn.clone(), qt, qc), d.msg.id);
+            let from_serial = u.from_serial;
             tokio::spawn(async move {
                 tokio::time::sleep(Duration::from_millis(delay_ms)).await;
                 let serial = {
@@ -181,7 +182,8 @@ async fn upstream_udp(k: Arc<Kernel>, plan: Arc<PlanB>, sh: Sh, ui: usize, mut r
                     s.replies.push(UpReply { serial, qidx: qi, upstream: ui, tcp: false, msg, handed_ns: handed, handed_hi_ns: handed, as_sent_is_msg: true });
                     s.handed_at[qi].push(handed);
                 }
-                if k.inject_udp(dst, src, UP_IF, &bytes) && as_sent {
+                /* "delivered": queued on the very socket that sent the transmission answered */
+                if k.inject_udp_serial(dst, src, UP_IF, &bytes) == Some(from_serial) && as_sent {
                     sh.lock().unwrap().delivered_udp[qi].push(handed);
                 }
             });
@@ -1326,16 +1328,23 @@ fn g_responded(g: &Shared, outs: &[crate::kernel::OutEv], q: &QuerySpec, qi: usi
 /// The only fault that can have touched this UDP query is loss of some transmissions of
 /// its own upstream exchange.
 fn only_own_udp_loss(plan: &PlanB, q: &QuerySpec) -> bool {
+    /* (a duplicated client datagram starts two exchanges of its own; which of them an
+     * upstream answer belonged to cannot be told from the outside) */
     if q.tcp || q.after_faults || q.dup_in {
         return false;
     }
-    if plan.out_loss_p > 0.0 || plan.out_dup_p > 0.0 || plan.out_delay_p > 0.0 || plan.qid_bits < 16 || plan.send_err_p > 0.0 {
+    /* erbium's own transmissions must have gone out (no loss, no failed sendmsg); a wrong
+     * reply on a reused port (low-entropy ids with a small port range) legitimately moves
+     * the exchange to TCP, where other faults may apply */
+    if plan.out_loss_p > 0.0 || plan.send_err_p > 0.0 || (plan.qid_bits < 16 && plan.eph_ports > 0) {
         return false;
     }
     if !plan.clock_jumps.is_empty() {
         return false;
     }
-    matches!(q.up, UpBehaviour::Pattern { .. } | UpBehaviour::AnswerFrom { .. })
+    /* whatever else goes wrong in the plan (dead TCP upstreams, other queries' faults): this
+     * exchange runs over UDP only */
+    matches!(q.up, UpBehaviour::Pattern { .. } | UpBehaviour::AnswerFrom { .. } | UpBehaviour::Normal { .. } | UpBehaviour::Dup { .. })
 }
 
 fn is_clean(plan: &PlanB, q: &QuerySpec) -> bool {
@@ -1345,7 +1354,7 @@ fn is_clean(plan: &PlanB, q: &QuerySpec) -> bool {
     }
     /* (low-entropy query ids are not a fault: colliding ids must be renumbered, replies
      * that answer another question ignored) */
-    if plan.out_loss_p > 0.0 || plan.out_dup_p > 0.0 || plan.out_delay_p > 0.0 || q.dup_in || plan.send_err_p > 0.0 {
+    if plan.out_loss_p > 0.0 || plan.out_dup_p > 0.0 || plan.out_delay_p > 0.0 || plan.send_err_p > 0.0 {
         return false;
     }
     if plan.upstream_tcp.iter().any(|m| m != "accept") {
